@@ -103,13 +103,14 @@ func execAsm(ts []string) string {
 	h := scriptedHandler{kind: ts[1]}
 	asm := &server.ModbusTCPAssembler{Handler: h}
 	outs := []string{}
+	// the connection loop hands the assembler a sub-slice of its ONE 300 byte read buffer: every read overwrites the
+	// bytes of the read before it
+	buf := make([]byte, 300)
+	for i := range buf {
+		buf[i] = 0xEE
+	}
 	for _, c := range strings.Split(ts[2], "|") {
 		chunk := unhx(c)
-		// the connection loop hands the assembler a sub-slice of its 300 byte read buffer
-		buf := make([]byte, 300)
-		for i := range buf {
-			buf[i] = 0xEE
-		}
 		n := copy(buf, chunk)
 		var reply []byte
 		var closeConn bool
